@@ -72,6 +72,10 @@ Definition bits (bs : list byte) : list bool := flat_map bits_of_byte bs.
 
 Definition be_to_N (bs : list byte) : N := fold_left (fun a b => a * 256 + Byte.to_N b) bs 0.
 
+(* packing a bit list (length a multiple of 8) into bytes *)
+Definition bytes_of_bits (bs : list bool) : list byte :=
+  map (fun c => byte_of_N (val c)) (chunks 8 (length bs / 8) bs).
+
 
 (* ---------- lemmas ---------- *)
 Lemma bits_of_N_length w n : length (bits_of_N w n) = w.
